@@ -36,9 +36,11 @@ func runLookup(r *h.Run, prop string) {
 	switch prop {
 	case "C01":
 		p.needQs = false
+		p.thoroughScafK = 4
 		r.Rule = "every key list of the bounded spaces (all subsets of U(Sigma4,2) up to the tier's size, every scaffold applied to every smaller subset, regular large families) x every run pattern of equal adjacent values and nil values x encoders {I32 everywhere; String16, VarEnc (may encode to empty) on sets of <= 3 keys} x all 16 Boolean option combinations + the no-Opt call form x instances {fresh, Unmarshal(Marshal), proto.Unmarshal(proto.Marshal)}; oracle: Get on every retained key returns (Decode(Encode(v)), true) and GetID >= 0. A state is a distinct (marshaled bytes, options, encoder); non-trivial = at least 2 retained keys"
 	case "C02":
 		p.needQs = false
+		p.thoroughScafK = 4
 		r.Rule = "same space as C01; oracle: RangeGet on EVERY input key (retained or de-duplicated away) returns (value supplied for that key, true); value-less tries: (nil, true)"
 	case "C03":
 		p.opts = []h.Opt4{{D: 1, I: 0, L: 0, C: 1}, {D: 0, I: 0, L: 0, C: 1}, {D: 1, I: 1, L: 1, C: 0}, {D: 0, I: 1, L: 1, C: 0}, {D: 1, I: 1, L: 0, C: 1}, {D: 0, I: 0, L: 1, C: 1}, {D: 1, I: 1, L: 1, C: 1}, {D: 0, I: 1, L: 1, C: 1}}
@@ -47,6 +49,7 @@ func runLookup(r *h.Run, prop string) {
 		r.Rule = "complete modes only (all 8 Boolean combinations that normalise to both prefixes stored); same key/value space as C01; every query of Q = U(Sigma4+{m},L+1) + long/extreme strings (+ per-key bit flips, prefixes, extensions on small lists), lifted and unlifted under scaffolds; oracle: sorted retained list: Get/GetID found iff member, RangeGet = value of max{r<=q}, Search = (max{r<q}, q, min{r>q}) values, nil where none"
 	case "C09":
 		p.needQs = false
+		p.thoroughScafK = 4
 		r.Rule = "same space as C01; oracle: for every retained key r_i Search(r_i) = (v_{i-1}|nil, v_i, v_{i+1}|nil) in all option combinations and instances; value-less tries: three nils"
 	case "C10":
 		r.Rule = "same space as C01 with every query of Q (incl. 300-byte, all-00, all-ff strings; per-key mutations; lifted and unlifted) in every mode, with and without values; oracle: no panic; Get found => value in the supplied retained values; Get found <=> GetID>=0; Search middle non-nil <=> Get found, equal; Get found => RangeGet found, same value"
